@@ -54,6 +54,7 @@ const (
 	c13OtherCA            // CA issued by another CA
 	c13SelfSigned         // not a CA, self-signed
 	c13IssuedLeaf         // not a CA, issued by a CA (neither CA nor self-signed)
+	c13SelfNamed          // not a CA, issuer name equal to its subject name, but signed by another key
 )
 
 type c13Entry struct {
@@ -279,9 +280,9 @@ func VsymC13() {
 				e.readErr = true // garbage
 			case 1: // empty file: no certificate, no error
 			case 2:
-				e.certs = []int{vr.Choice("certKind", 4)}
+				e.certs = []int{vr.Choice("certKind", 5)}
 			default:
-				e.certs = []int{vr.Choice("certKind", 4), vr.Choice("certKind", 4)}
+				e.certs = []int{vr.Choice("certKind", 5), vr.Choice("certKind", 5)}
 			}
 		}
 		w.entries = append(w.entries, e)
@@ -293,6 +294,11 @@ func VsymC13() {
 			e := &w.entries[i]
 			for j, k := range e.certs {
 				c := &x509.Certificate{Raw: []byte{byte('A' + i), byte('0' + j)}, IsCA: k == c13RootCA || k == c13OtherCA}
+				c.RawSubject = []byte{'s', byte('A' + i), byte('0' + j)}
+				c.RawIssuer = []byte("issuing CA")
+				if k == c13RootCA || k == c13SelfSigned || k == c13SelfNamed {
+					c.RawIssuer = c.RawSubject
+				}
 				w.kindOf[c] = k
 				e.objs = append(e.objs, c)
 			}
@@ -319,7 +325,7 @@ func VsymC13() {
 				if k != c13RootCA {
 					want = false
 				}
-			} else if k == c13IssuedLeaf {
+			} else if k == c13IssuedLeaf || k == c13SelfNamed {
 				want = false
 			}
 			total++
@@ -476,6 +482,11 @@ func c13PEM(kind int, serial int64) []byte {
 	case c13SelfSigned:
 		tpl.KeyUsage = x509.KeyUsageDigitalSignature
 		der, err = x509.CreateCertificate(rand.Reader, tpl, tpl, &c13LeafKey.PublicKey, c13LeafKey)
+	case c13SelfNamed:
+		// issuer name = subject name, signature by a foreign key
+		tpl.KeyUsage = x509.KeyUsageDigitalSignature
+		parent := *tpl
+		der, err = x509.CreateCertificate(rand.Reader, tpl, &parent, &c13LeafKey.PublicKey, c13CAKey)
 	default:
 		tpl.KeyUsage = x509.KeyUsageDigitalSignature
 		der, err = x509.CreateCertificate(rand.Reader, tpl, caTpl, &c13LeafKey.PublicKey, c13CAKey)
